@@ -173,7 +173,7 @@ def judge(ctx, c, r, stats, faults):
     on_site = [m for (ln, m) in r["errs"] if c["l0"] <= ln <= c["l1"]]
     if not on_site:
         lines = sorted({ln for (ln, _) in r["errs"]})
-        key = "wrong-line:%s%s" % (op.split(":")[0], ":line0" if lines[:1] == [0] else "")
+        key = ("wrong-line:line0:%s" % RULES[rule]) if lines[:1] == [0] else ("wrong-line:%s" % op.split(":")[0])
         ctx.violation(key, "diagnostic not reported at the offending line: operator %s, context %s" % (op, where),
                       {"case": c["id"], "operator": op, "context": where, "expected_lines": [c["l0"], c["l1"]],
                        "observed": r["errs"][:5], "source": c["src"]})
@@ -182,6 +182,15 @@ def judge(ctx, c, r, stats, faults):
     stats["line_first_exact" if first_line == c["l0"] else
           ("line_first_within" if c["l0"] <= first_line <= c["l1"] else "line_later_diag")] += 1
     kinds = classify(on_site)
+    if rule not in kinds:
+        # param_expr_cmp prints its own text ("expected param ... but got ... instead") on the line of
+        # the offending expression; the caller's diagnostic that names the rule follows it and may
+        # carry the line of the enclosing function / catch clause ("incorrect return type in ...")
+        idx = next(i for i, (ln, _) in enumerate(r["errs"]) if c["l0"] <= ln <= c["l1"])
+        for (_, m) in r["errs"][idx:]:
+            if not PRELUDE.search(m):
+                kinds |= classify([m])
+                break
     if rule not in kinds:
         ctx.correspondence_broken("diagnostic-kind-differs-from-model-rule",
                                   {"id": c["id"], "operator": op, "model": RULES[rule], "diagnostics": on_site[:4], "src": c["src"]})
@@ -231,7 +240,8 @@ def run_corpus(ctx, drv):
                               {"case": c["id"], "expected": "COMPILE_ERROR at line %d" % line, "observed": r["kind"],
                                "source": c["src"]})
             elif line and not any(ln == line for (ln, _) in r["errs"]):
-                ctx.violation("wrong-line:" + key, "diagnostic not at the offending line (%s)" % c["id"],
+                ctx.violation(key if key.startswith("wrong-line:") else "wrong-line:" + key,
+                              "diagnostic not at the offending line (%s)" % c["id"],
                               {"case": c["id"], "expected_line": line, "observed": r["errs"][:5], "source": c["src"]})
     return n, len(cases)
 
